@@ -8,7 +8,7 @@ contents) and both kinds of view buffer (`direct`: field of a struct; otherwise 
 -/
 import Emboss.Properties.C02
 import Emboss.Lemmas.ScalarWriteView
-import Emboss.Lemmas.WriteInference
+import Emboss.Lemmas.WriteInferenceCpp
 namespace Emboss.Scalar
 open Emboss.Bits Emboss.Scalar.Spec
 
@@ -325,37 +325,83 @@ example : invert (.bin .mul (.ref 1) (.const 2)) = none ∧
     invert (.bin .add (.ref 1) (.ref 2)) = none ∧ invert (.bin .sub (.ref 1) (.ref 1)) = none := by
   decide
 
-/-
-Full statement (false on the real generated code, see finding
-`virtual-write-inverse-wraps-in-unsigned-destination-type`): the same with `eval` replaced by
-what the generated C++ computes.  The C++ evaluates `function_body` in a fixed-width type
-inferred from the *assumed* bounds of `$logical_value` (the virtual field's own value range);
-for a candidate value outside that range the unsigned arithmetic wraps and a 32-bit `UInt`
-destination accepts the wrapped value: `let v = f0 + 1` over `0 [+4] UInt f0`,
-`v().TryToWrite(0)` succeeds, stores 0xFFFFFFFF and `v` reads 2^32.
--/
-/-- **Transform write**, partial: *when the inverse `function_body` is evaluated exactly (over
-ℤ, as `eval` does — true of the generated C++ whenever the candidate value lies in the virtual
-field's own value range, so that no intermediate wraps)*, a successful `TryToWrite(v)` of the
-generated virtual-field write method leaves in the destination the value for which the
-virtual field reads back `v`; that value was accepted by the destination's own
-`CouldWriteValue` (C03_could_write_iff_representable_*); a failed write leaves the
-destination unchanged.  Missing: the fixed-width evaluation of the inverse in the generated
-code (open finding above; the signed variant is undefined behaviour and belongs to C04/F3). -/
-theorem C03_transform_write_partial (rt body : Expr) (x : Nat) (hinv : invert rt = some (.ref x, body))
-    (valueIsOk : Int → Bool) (d : Dest) (v : Int) (env : Nat → Int) :
-    (∀ d', virtualTryToWrite body valueIsOk d v = (true, d') →
-      eval (update env x d'.value) v rt = some v ∧ d.could d'.value = true ∧
-      valueIsOk v = true ∧ d.complete = true) ∧
-    (∀ d', virtualTryToWrite body valueIsOk d v = (false, d') → d' = d) :=
-  transform_write rt body x hinv valueIsOk d v env
+/-- **Transform write** (promoted from `C03_transform_write_partial`: the hypothesis "the
+inverse is evaluated exactly" is discharged).  The model now evaluates `function_body` the
+way the generated C++ does — per node the bounds of `expression_bounds`, `IntermediateT` /
+`ResultT` chosen by `_cpp_integer_type_for_range`, `MaybeDo`'s conversions, signed overflow =
+undefined — after the range check that `fix: make writes through an arithmetic virtual field
+reject values outside the field's range` put in front of it (rendered literals compared under
+the usual arithmetic conversions).  For **every** value `v` of the C++ parameter type:
 
-/-- An 8-bit unsigned destination holding 5, complete. -/
+* the generated code has defined behaviour (no overflow, no value-changing conversion);
+* `TryToWrite(v)` succeeds **exactly when** `[requires]` holds, `v` lies in the virtual
+  field's own range, the destination is complete and accepts the exact (ℤ) inverse image;
+* then the destination holds the value for which `read_transform` evaluates to `v`
+  (whatever the other fields hold), inside the range the front end inferred for it;
+* otherwise the destination is untouched.
+
+Side conditions: `lv`/`t` are the range and C++ type of the virtual field, the inverse lies in
+the fragment `_invert_expression` emits with constant-typed operands the model can evaluate
+(`rangeOf … = some r`), and every node has a C++ type (otherwise the header does not
+compile).  Before the repair the same model accepts `v = 0` for `let v = f0 + 1` over a
+32-bit `UInt` and stores `0xFFFFFFFF` (see the `example` below) — fixed finding
+`virtual-write-inverse-wraps-in-unsigned-destination-type`. -/
+theorem C03_transform_write (rt body : Expr) (x : Nat) (hinv : invert rt = some (.ref x, body))
+    (lv r : Rng) (t : Emboss.CppInt.IntTy) (ht : logicalType lv = some t) (hle : lv.lo ≤ lv.hi)
+    (hr : rangeOf lv body = some r) (hty : typesExist lv body = true)
+    (valueIsOk : Int → Bool) (d : Dest) (v : Int) (hv : t.holds v = true) (env : Nat → Int) :
+    ∃ ok d', virtualTryToWrite lv t body valueIsOk d v = some (ok, d') ∧
+      (ok = true ↔ valueIsOk v = true ∧ lv.lo ≤ v ∧ v ≤ lv.hi ∧ d.complete = true ∧
+        ∃ u, eval (fun _ => 0) v body = some u ∧ d.could u = true) ∧
+      (ok = true → eval (update env x d'.value) v rt = some v ∧ d.could d'.value = true ∧
+        r.lo ≤ d'.value ∧ d'.value ≤ r.hi) ∧
+      (ok = false → d' = d) :=
+  transform_write rt body x hinv lv r t ht hle hr hty valueIsOk d v hv env
+
+/-- The generated range check alone: exact for every value of the parameter type. -/
+theorem C03_virtual_range_check_exact (lv : Rng) (t : Emboss.CppInt.IntTy)
+    (ht : logicalType lv = some t) (hle : lv.lo ≤ lv.hi) (v : Int) (hv : t.holds v = true) :
+    rangeCheck lv t v = some (decide (lv.lo ≤ v ∧ v ≤ lv.hi)) :=
+  rangeCheck_exact ht hle hv
+
+/-- The generated inverse is exact inside the field's range (no wrap, no overflow). -/
+theorem C03_inverse_cpp_exact (lv : Rng) (v : Int) (hv : lv.lo ≤ v ∧ v ≤ lv.hi) (body : Expr)
+    (r : Rng) (hr : rangeOf lv body = some r) (hty : typesExist lv body = true) :
+    ∃ u, cppEval lv v body = .ok u ∧ eval (fun _ => 0) v body = some u ∧ r.lo ≤ u ∧ u ≤ r.hi :=
+  cppEval_exact lv v hv body r hr hty
+
+/-- An 8-bit unsigned destination holding 5, complete; `let v = f + 100`: range `[100, 355]`. -/
 def exDest : Dest := { could := fun u => decide (0 ≤ u ∧ u < 256), complete := true, value := 5 }
-example : (virtualTryToWrite (.bin .sub .logical (.const 100)) (fun _ => true) exDest 130).1 = true ∧
-    (virtualTryToWrite (.bin .sub .logical (.const 100)) (fun _ => true) exDest 130).2.value = 30 ∧
-    (virtualTryToWrite (.bin .sub .logical (.const 100)) (fun _ => true) exDest 99).1 = false := by
+def exLv : Rng := ⟨100, 355⟩
+def exBody : Expr := .bin .sub .logical (.const 100)
+example : invert (.bin .add (.ref 0) (.const 100)) = some (.ref 0, exBody) ∧
+    logicalType exLv = some Emboss.CppInt.i32 ∧ rangeOf exLv exBody = some ⟨0, 255⟩ ∧
+    typesExist exLv exBody = true := by decide
+/-- Observable part of a `TryToWrite` outcome: (returned value, destination value afterwards). -/
+def obs (r : Option (Bool × Dest)) : Option (Bool × Int) := r.map fun p => (p.1, p.2.value)
+example : obs (virtualTryToWrite exLv Emboss.CppInt.i32 exBody (fun _ => true) exDest 130) = some (true, 30) ∧
+    obs (virtualTryToWrite exLv Emboss.CppInt.i32 exBody (fun _ => true) exDest 99) = some (false, 5) ∧
+    obs (virtualTryToWrite exLv Emboss.CppInt.i32 exBody (fun _ => true) exDest 356) = some (false, 5) := by
   decide
+
+-- the pinned input of the fixed finding: `let v0 = f0 + 1` over `0 [+4] UInt f0`:
+-- range [1, 2^32], parameter type int64_t, inverse `$logical_value - 1` computed with
+-- IntermediateT = int64_t, ResultT = uint32_t.  Outside the range the C++ expression wraps
+-- (0 ↦ 0xFFFFFFFF) — which is why `CouldWriteValue(0)` was true before the repair; the range
+-- check now refuses 0 before the inverse is computed.
+def exLv32 : Rng := ⟨1, 4294967296⟩
+def exBody1 : Expr := .bin .sub .logical (.const 1)
+def exDest32 : Dest :=
+  { could := fun u => decide (0 ≤ u ∧ u < 4294967296), complete := true, value := 5 }
+example : logicalType exLv32 = some Emboss.CppInt.i64 ∧
+    cppTypes exLv32 exBody1 = [(some Emboss.CppInt.i64, some Emboss.CppInt.u32,
+      some Emboss.CppInt.i64, some Emboss.CppInt.i32)] ∧
+    cppEval exLv32 0 exBody1 = .ok 4294967295 ∧
+    rangeCheck exLv32 Emboss.CppInt.i64 0 = some false ∧
+    obs (virtualTryToWrite exLv32 Emboss.CppInt.i64 exBody1 (fun _ => true) exDest32 0) =
+      some (false, 5) ∧
+    obs (virtualTryToWrite exLv32 Emboss.CppInt.i64 exBody1 (fun _ => true) exDest32 4294967296) =
+      some (true, 4294967295) := by decide
 
 /-- **Alias write**: a virtual field gets an `alias` write method only when it is exactly a
 reference (without `[requires]`) to a writable field of the structure, and a `transform` only
